@@ -7,7 +7,7 @@ import casadi as ca
 from .. import oracles as O
 from ..caseval import Ev
 from ..groups import base_specs, product_specs, ProductSpec, extra_euler_specs
-from .lie_common import (inplace_history, lib_call, euler_ok, mrp_product_ok, algebra_corpus, group_corpus, configs_for_shard, rot_angles)
+from .lie_common import (inplace_history, sparse_param_form, lib_call, euler_ok, mrp_product_ok, algebra_corpus, group_corpus, configs_for_shard, rot_angles)
 
 PI = np.pi
 SHARDS = {"quick": 14, "thorough": 16}
@@ -30,6 +30,7 @@ def run(ctx):
         check_config(ctx, spec, N if not isinstance(spec, ProductSpec) or ctx.quick else max(1000, N // 20))
     if ctx.shard == 1 % ctx.nshards:
         inplace_history(ctx, base_specs() + product_specs(cfg_rng, "quick")[:2], 4 if ctx.quick else 40, ops=("Ad", "ad", "bracket"))
+        sparse_param_form(ctx, base_specs() + product_specs(cfg_rng, "quick")[:2], ops=("Ad", "ad", "bracket"))
 
 
 def oracle_ad(spec, X):
